@@ -23,8 +23,9 @@ NAMES_OK = ('run', 'with space', 'ünï', '-dash', 'dot.ted', 'x' * 120,
             'UPPER', 'a b c', 'stdout', 'stderr', 'tab\there', "quo'te")
 NAMES_BAD = ('sl/ash', 'nul\0char', '.', '..', '/abs', '')
 CODE_KINDS = ('checkout', 'build')
-MARKER = '--verif-id-%d-%d'
+MARKER = '--verif-task-%d'
 STALE = 'STALE text left by an earlier run\n'
+QUIET = {'exit': 0, 'dur': 0, 'out': '', 'err': '', 'start': None, 'args': []}
 START_FAIL = {'ENOENT': FileNotFoundError, 'EACCES': PermissionError,
               'ENOMEM': OSError, 'EAGAIN': OSError}
 
@@ -51,7 +52,11 @@ def gen_scenario(rng, fam):
         if via in CODE_KINDS and not name_valid(name):
             name = pool.pop()
             names[-1] = name
-        ncmd = 1 if via in ('cli', 'factory') else 2 if via in CODE_KINDS \
+        # code tasks: the k-th call the task makes gets the k-th scripted
+        # command (the documented code makes two: clone + checkout, configure
+        # + build, whatever the number of targets)
+        ncmd = 1 if via in ('cli', 'factory') else \
+            rng.choice((2, 3, 5)) if via in CODE_KINDS \
             else rng.randrange(1, 5)
         cmds = []
         for k in range(ncmd):
@@ -76,7 +81,8 @@ def gen_scenario(rng, fam):
         hard = [j for j in range(i) if rng.random() < 0.25]
         soft = [j for j in range(i) if j not in hard and rng.random() < 0.15]
         tasks.append({'name': name, 'via': via, 'cmds': cmds, 'hard': hard,
-                      'soft': soft, 'stale': rng.random() < 0.3})
+                      'soft': soft, 'stale': rng.random() < 0.3,
+                      'targets': rng.choice((None, 1, 2, 3))})
     if fam.get('startup'):
         # the first run of a job: nothing exists yet and the workers start
         # their first tasks at the same moment
@@ -120,10 +126,33 @@ def cli_of(scn, i, k):
     return ['cmd-%d-%d' % (i, k)] + list(cmd['args'])
 
 
-def expected(scn):
-    '''Reference model: per task (own outcome, commands started, codes).'''
+def expected(scn, proc_log=()):
+    '''Reference model: per task (own outcome, commands started, codes).
+    RunTasks are judged against the scripted command list; CheckoutTask and
+    BuildTask, whose command lines are made by the code under test, against
+    the calls they actually made (k-th call = k-th scripted command): DONE iff
+    every call exited 0, nothing started after the first failure.'''
     own = []
+    calls = {}
+    for rec in proc_log:
+        if rec['ident'] is not None:
+            calls.setdefault(rec['ident'][0], []).append(rec)
     for i, tsk in enumerate(scn['tasks']):
+        if tsk['via'] in CODE_KINDS:
+            started, codes, raised, status = 0, [], False, 'DONE'
+            for rec in calls.get(i, []):
+                if status == 'FAILED':
+                    break
+                started += 1
+                if rec.get('raised'):
+                    status, raised = 'FAILED', True
+                else:
+                    codes.append(rec.get('code'))
+                    if rec.get('code') != 0:
+                        status = 'FAILED'
+            own.append({'status': status, 'started': started,
+                        'codes': None if raised else codes, 'raised': raised})
+            continue
         if not name_valid(full_name(tsk)):
             own.append({'status': 'FAILED', 'started': 0, 'codes': None,
                         'raised': True})
@@ -188,9 +217,10 @@ def run_scenario(scn, chooser, max_steps=200000):
     for i, tsk in enumerate(scn['tasks']):
         for k in range(len(tsk['cmds'])):
             if tsk['via'] in CODE_KINDS:
-                markers[MARKER % (i, k)] = (i, k)
+                markers[MARKER % i] = i
             else:
                 table[tuple(cli_of(scn, i, k))] = (i, k)
+    ncalls = {}
     proc_log = []
     holder = {}
     real_call = subprocess.call
@@ -199,9 +229,11 @@ def run_scenario(scn, chooser, max_steps=200000):
         key = tuple(cli)
         ident = table.get(key)
         if ident is None:
-            hits = [markers[tok] for tok in cli if tok in markers]
+            hits = sorted({markers[tok] for tok in cli if tok in markers})
             if len(hits) == 1:
-                ident = hits[0]
+                # the k-th call made by a code task
+                ident = (hits[0], ncalls.get(hits[0], 0))
+                ncalls[hits[0]] = ident[1] + 1
         rec = {'cli': list(cli), 'cwd': cwd, 'step': sim.steps,
                'ident': ident, 'kwargs': sorted(kwargs)}
         proc_log.append(rec)
@@ -209,9 +241,12 @@ def run_scenario(scn, chooser, max_steps=200000):
             sim.hit('unknown-command')
             raise FileNotFoundError(errno.ENOENT, 'no such command', cli[0])
         i, k = ident
-        cmd = scn['tasks'][i]['cmds'][k]
+        cmds = scn['tasks'][i]['cmds']
+        cmd = cmds[k] if k < len(cmds) else QUIET
+        rec['cmd'] = cmd
         sim.mark('proc-start', ident)
         if cmd['start']:
+            rec['raised'] = True
             sim.hit('startup-failure:' + cmd['start'])
             exc = START_FAIL[cmd['start']]
             raise exc(getattr(errno, cmd['start']),
@@ -230,6 +265,7 @@ def run_scenario(scn, chooser, max_steps=200000):
             os.write(stdout.fileno(), cmd['out'][half:].encode())
         sim.mark('proc-exit', ident)
         rec['exit_step'] = sim.steps
+        rec['code'] = cmd['exit']
         if cmd['exit'] != 0:
             sim.hit('nonzero-exit')
         return cmd['exit']
@@ -255,16 +291,17 @@ def run_scenario(scn, chooser, max_steps=200000):
             if tsk['via'] == 'checkout':
                 obj = mods['code'].CheckoutTask(
                     tsk['name'], repository='repo-%d' % i,
-                    flags=[MARKER % (i, 0)] + list(tsk['cmds'][0]['args']),
-                    ref=MARKER % (i, 1), deps=deps, soft_deps=soft)
+                    flags=[MARKER % i] + list(tsk['cmds'][0]['args']),
+                    ref=MARKER % i, deps=deps, soft_deps=soft)
             elif tsk['via'] == 'build':
                 obj = mods['code'].BuildTask(
                     tsk['name'], '/nonexistent/src-%d' % i,
-                    configure_flags=[MARKER % (i, 0)] +
+                    configure_flags=[MARKER % i] +
                     list(tsk['cmds'][0]['args']),
-                    build_flags=[MARKER % (i, 1)] +
+                    build_flags=[MARKER % i] +
                     list(tsk['cmds'][1]['args']),
-                    targets=['all'] if i % 2 else None,
+                    targets=['tgt%d' % n for n in range(tsk['targets'])]
+                    if tsk.get('targets') else None,
                     deps=deps, soft_deps=soft)
             elif tsk['via'] == 'cli':
                 obj = run_mod.RunTask.from_cli(tsk['name'], clis[0],
@@ -376,7 +413,7 @@ def oracle(scn, res):
                      'run-raised:%s' % type(res.main_exc).__name__,
                      {'exception': repr(res.main_exc)[:200]}))
         return viol
-    own, final = expected(scn)
+    own, final = expected(scn, res.proc_log)
     tasks = scn['tasks']
     started = {}
     for rec in res.proc_log:
@@ -516,7 +553,8 @@ def judge_code_task(tsk, name, own, recs, ent, files, res):
     file; the stub child writes out[:half], err, out[half:].'''
     viol = []
     parts = []
-    for rec, cmd in zip(recs, tsk['cmds'][:own['started']]):
+    for rec in recs[:own['started']]:
+        cmd = rec['cmd']
         if cmd['start']:
             parts.append((rec['cli'], ''))
             continue
@@ -653,7 +691,7 @@ class Spec(simcheck.SimSpec):
 
     def facts(self, scn, res):
         facts = {}
-        own, final = expected(scn)
+        own, final = expected(scn, res.proc_log)
         for i, tsk in enumerate(scn['tasks']):
             facts['task-final:' + final[i]] = \
                 facts.get('task-final:' + final[i], 0) + 1
